@@ -50,7 +50,10 @@ func (t *MemoryDevice) GetAirTemperature(_ context.Context, req *traits.GetAirTe
 
 func (t *MemoryDevice) UpdateAirTemperature(_ context.Context, request *traits.UpdateAirTemperatureRequest) (*traits.AirTemperature, error) {
 	update, err := t.airTemperature.Set(request.State, resource.WithUpdateMask(request.UpdateMask))
-	return update.(*traits.AirTemperature), err
+	if err != nil {
+		return nil, err
+	}
+	return update.(*traits.AirTemperature), nil
 }
 
 func (t *MemoryDevice) PullAirTemperature(request *traits.PullAirTemperatureRequest, server traits.AirTemperatureApi_PullAirTemperatureServer) error {
